@@ -827,6 +827,7 @@ fn run_case() {
     let coll = start_collector();
     let mut reporter_set = false;
     let mut in_cycle = false;
+    let mut flush_rx: Option<mpsc::Receiver<bool>> = None;
 
     let mut emit = |s: String| {
         writeln!(out, "{}", s).unwrap();
@@ -842,7 +843,8 @@ fn run_case() {
                 Err(_) => "rep none".into(),
             };
         }
-        match rep_rx.recv_timeout(OP_TIMEOUT) {
+        // the cycle has completed (or `flush()` has returned): `report` was called before that, if at all
+        match rep_rx.recv_timeout(Duration::from_millis(500)) {
             Ok(rs) => format!("rep {}", show_records(&rs, true)),
             Err(_) => "rep missing".into(),
         }
@@ -906,6 +908,29 @@ fn run_case() {
                     finish_cycle(reporter_set)
                 }
             }
+            ["flushBegin"] => {
+                // `fastrace::flush()` on a helper thread: it may have to wait for a cycle that is in progress
+                let (tx, rx) = mpsc::channel::<bool>();
+                let (started_tx, started_rx) = mpsc::channel::<()>();
+                std::thread::spawn(move || {
+                    let _ = started_tx.send(());
+                    let r = catch_unwind(fastrace::flush);
+                    let _ = tx.send(r.is_ok());
+                });
+                // let the call get as far as the collector's lock before the driver goes on
+                let _ = started_rx.recv_timeout(OP_TIMEOUT);
+                std::thread::sleep(Duration::from_millis(3));
+                flush_rx = Some(rx);
+                "ok".into()
+            }
+            ["flushEnd"] => match flush_rx.take() {
+                None => "bad-op no flush in progress".into(),
+                Some(rx) => match rx.recv_timeout(OP_TIMEOUT) {
+                    Ok(true) => finish_cycle(reporter_set),
+                    Ok(false) => "panic".into(),
+                    Err(_) => "timeout".into(),
+                },
+            },
             ["cycBegin"] => {
                 if in_cycle {
                     "bad-op cycle already in progress".into()
